@@ -16,6 +16,7 @@ import json as pyjson
 import re
 import sys
 import common as C
+import gen_json
 
 # 1000-deep documents are part of the scope: the reference walks them recursively
 sys.setrecursionlimit(max(sys.getrecursionlimit(), 20000))
@@ -29,7 +30,7 @@ MANIFEST = {
         "design_ref": "DESIGN.md 3/C15",
     }
 }
-PROPS = ["Nstd.Json.Props"]
+PROPS = ["Nstd.Json.Props", "Nstd.Json.LemmasTables"]
 LEAN_TARGETS = PROPS + ["drv_json"]
 DRIVER = "drv_json"
 HARNESS_SOURCES = ["json.cpp", "src/Document/Json.cpp", "src/String.cpp", "src/Variant.cpp", "src/Error.cpp", "src/Memory.cpp"]
@@ -905,6 +906,12 @@ def nontrivial(h, out):
     return hashlib.sha1("\n".join(keys).encode()).hexdigest()
 
 
+def setup():
+    """tools/setup.py: regenerate lean/Nstd/Generated/JsonTables.lean before the Lean build"""
+    ok, msg = gen_json.run()
+    print(f"gen_json: {'ok' if ok else 'FAILED'} {msg}", flush=True)
+
+
 def sources():
     return [HARNESS_SOURCES[0]] + [C.REPO / s for s in HARNESS_SOURCES[1:]]
 
@@ -918,7 +925,7 @@ def check(ctx):
         "reference for accepted documents: CPython's json.loads (strict) on the UTF-8 decoded text; documents it rejects but nstd accepts "
         "(trailing commas, trailing text, raw control characters, unknown escapes, atoll numbers) are judged only by the model and by the position rule",
     ]
-    proof_ok = C.proof_stage(ctx, PROPS, [DRIVER], leanchecker=(ctx.tier == "thorough"))
+    proof_ok = C.proof_stage(ctx, PROPS, [DRIVER], gen=gen_json.gen, leanchecker=(ctx.tier == "thorough"))
     harness = C.build_harness(ctx, "json", sources())
     if harness is None:
         return
@@ -961,6 +968,7 @@ def check(ctx):
 def replay(ctx, path):
     h = C.parse_replay(path)
     harness = C.build_harness(ctx, "json", sources())
+    gen_json.run()
     C.lake_build([DRIVER])
     diffs = C.differential(ctx, harness, C.driver_path(DRIVER), [h], reference, C.default_eq)
     for d in diffs:
